@@ -471,6 +471,20 @@ def _a_class_facade(chk):
     chk.check(ok, "C18.a", f"{SYS}::Hamiltonian.from_state",
               f"TargetClass.from_state(source, point=P) builds its result from {vals} (conversion asked: {[(t, k) for _, t, k in asked]}); expected the converted polynomial, "
               f"degree, ndof and name of the conversion's result", sample="from_state -> target_cls(result.poly_H, result.degree, result.ndof, result.name)")
+    # the two Lie edges return (Hamiltonian, generating functions): the class-based entry point must run for them too
+    built.clear()
+    asked.clear()
+    conv.attrs["convert"] = lambda ham, target, **kw: (asked.append((ham, target, kw)), (result, sp.Symbol("GENERATING_FUNCTIONS")))[1]
+    ran = True
+    try:
+        ip.apply(FuncRef(fs[0], fs[2], bound_self=target_ctor, qual="Hamiltonian.from_state", owner=(fs[0], fs[1])), [src], {"point": P})
+    except (OutsideFragment, KpeRaise):
+        ran = False
+    vals = (list(built[0][0]) + list(built[0][1].values())) if built else []
+    chk.check(ran and len(built) == 1 and sp.Symbol("POLY_NEW") in vals and "dstform" in vals, "C18.a", f"{SYS}::Hamiltonian.from_state[tuple-valued edge]",
+              "for a registered conversion that returns (Hamiltonian, generating functions) - complex_modal -> complex_partial_normal / complex_full_normal - the class-based "
+              "from_state does not run: it reads .poly_H off the tuple (AttributeError at run time)", sample="from_state unpacks (ham, generating functions) like the pipeline does")
+    conv.attrs["convert"] = lambda ham, target, **kw: (asked.append((ham, target, kw)), result)[1]
     asked.clear()
     out = ip.apply(ip.getattr(src.attrs["dynamics"], "to_state"), ["dstform"], {"point": P})
     chk.check(out is result and asked and asked[0][0] is src and asked[0][1] == "dstform", "C18.a", f"{HS}::_HamiltonianDynamicsService.to_state",
